@@ -24,7 +24,7 @@ ASSUMPTIONS = ["a crash is modelled as process death immediately before a file-s
                "written is assumed durable (no lost page cache)", "copies are performed in 64 kB chunks in the crashing child",
                "a manager that raises on construction counts as 'does not list the backup'"]
 MIN_MONITOR_EVALS = {"crash-point": 100, "crash-inside-copy": 10, "crash-inside-record": 5, "restore-byte-identical": 40,
-                     "task-restore-touches-only-tasks": 20, "remodel-twice-equals-once": 10, "same-name-not-overwritten": 20,
+                     "task-restore-touches-only-tasks": 12, "task-remodel-leaves-other-tasks": 12, "remodel-twice-equals-once": 10, "same-name-not-overwritten": 15,
                      "second-backup-leaves-first-alone": 10, "partial-backup-twice-equals-once": 5}
 WATCHDOG_S = {"quick": 900, "thorough": 5400}
 OPS_MODEL = [{"operation": "rename_columns", "description": "x",
@@ -39,7 +39,7 @@ def EXHAUSTIVE(tier):
 
 def shards(tier, seed):
     nt = {"quick": 4, "thorough": 40}[tier]
-    nh = {"quick": 60, "thorough": 3000}[tier]
+    nh = {"quick": 80, "thorough": 3000}[tier]
     out = [dict(kind="crash", tree=i, via=("cli" if i % 2 else "api")) for i in range(nt)]
     out += [dict(kind="history", n=10, stream=i) for i in range(0, nh, 10)]
     return out
@@ -247,7 +247,7 @@ def run_history_case(case, rec):
         ops = []
         for _ in range(rng.randrange(3, 9)):
             op = rng.choice(["modify", "modify", "delete", "remodel", "restore", "restore-tasks", "backup-again",
-                             "remodel-twice", "second-backup-same-manager"])
+                             "remodel-twice", "second-backup-same-manager", "remodel-tasks"])
             ops.append(op)
             case_now = dict(case, ops=list(ops))
             if op == "modify":
@@ -293,6 +293,24 @@ def run_history_case(case, rec):
                     rec.violation(f"run_remodel raised {type(ex).__name__} with a valid backup", case_now)
                     return
                 del missing
+            elif op == "remodel-tasks":
+                # the remodeler run for some tasks only (it restores those files from the backup first): the files of
+                # the other tasks are left as they are
+                tasks = rng.sample(["A", "B", "rest"], rng.randrange(1, 3))
+                before = tree_bytes(root, rels)
+                try:
+                    run_remodel.main([root, model_path, "-ns", "-x", "derivatives", "-t"] + tasks)
+                except Exception as ex:  # noqa
+                    rec.violation(f"run_remodel for some tasks raised {type(ex).__name__} with a valid backup", case_now)
+                    return
+                rec.mon("task-remodel-leaves-other-tasks")
+                now = tree_bytes(root, rels)
+                for r in rels:
+                    mine = any(("task_" + t) in os.path.basename(r) or ("task-" + t) in os.path.basename(r) for t in tasks)
+                    if not mine and now[r] != before[r]:
+                        rec.violation("the remodeler run for some tasks changed a file of another task",
+                                      dict(case_now, tasks=tasks, file=r))
+                        return
             elif op == "restore":
                 if rng.random() < 0.5:
                     run_remodel_restore.main([root])
